@@ -10,7 +10,7 @@ MCTimes   == {PlusSec(E, -1), E, PlusSec(E, 1), PlusSec(E2, -1), E2, <<730700, 5
 MCFacts   == [ekus : SUBSET {0, 1, 4}, unk : {0, 1},
               pols : {{}, {"2.23.140.1.2.1"}, {"2.23.140.1.5.1.1"}, {"2.23.140.1.4.1"}, {"1.2.3"}, {"2.23.140.1.2.1", "2.23.140.1.4.1"},
                       \* near misses: an identifier that extends or truncates a scope identifier is no indication
-                      {"2.23.140.1.4.1.1", "2.23.140.1.3.7"}, {"2.23.140.1.2.1.1", "2.23.140.1.5.1.1.1"}, {"2.23.140.1.4", "2.23.140.1.2", "2.23.140.1.5.1"}},
+                      {"2.23.140.1.4.1.1", "2.23.140.1.3.7"}, {"2.23.140.1.2.1.1", "2.23.140.1.5.1.1.1"}, {"2.23.140.1.4", "2.23.140.1.2", "2.23.140.1.5.1"}, {"2.23.140.1", "2.23.140", "2.23"}},
               email : BOOLEAN]
 MCFactsBig == [ekus : SUBSET {0, 1, 4, 2}, unk : {0, 1},
               pols : SUBSET {"2.23.140.1.2.1", "2.23.140.1.5.1.1", "2.23.140.1.4.1", "1.2.3"}, email : BOOLEAN]
